@@ -234,6 +234,31 @@ def uniqRands (quantity maxval : Nat) (r : Nat → Nat) : Option (List Nat) :=
   (uniqLoop r (min quantity maxval) 0 maxval (Array.range maxval)).map
     fun a => (a.extract 0 (min quantity maxval)).toList
 
+/-! ### micro-steps of one iteration of processInFlightQueue
+
+In the Go code one iteration is TWO critical sections: `PeekAndShift` under `inFlightMutex`, then —
+after the lock was released (hook point `chan.scan.afterPQPop`) — `popInFlightMessage(msg.clientID,
+msg.ID)`, which reads the CURRENT `clientID` field of the shared `*Message`. Other API calls can
+run in between. -/
+
+/-- first critical section: pop the heap; the scan now holds a pointer to the message (its id) -/
+def scanPopPQ (c : Chan) (t : Int) : Chan × Option E :=
+  match peekAndShift1 c.ifpq t with
+  | none => (c, none)
+  | some (pq, e) => ({ c with ifpq := pq }, some e)
+
+/-- second critical section + `put`: the map entry of that id is removed if there is one — the
+ownership test compares the object's current `clientID` with itself, so it always passes — and
+the message is handed to `put`. Returns whether it was released. -/
+def scanFinishPop (c : Chan) (id : Nat) : Chan × Bool :=
+  match lookup c.ifmap id with
+  | none => (c, false)
+  | some _ => ({ c with ifmap := erase c.ifmap id, ready := c.ready ++ [id] }, true)
+
+/-- the current in-flight deadline of a message, if it is in the heap -/
+def deadlineOf (c : Chan) (id : Nat) : Option Int :=
+  (c.ifpq.find? (fun e => e.id == id)).map (·.pri)
+
 /-! ### one tick of queueScanLoop -/
 
 /-- the channels at the selected indices of the (cached) channel list are handed to
